@@ -3,11 +3,13 @@ from props.vmcommon import *
 
 MODULES = ["PestModel.Thm.C02"]
 GEN = "drv_gen"
+TAG_ID = "C02-tags-on-optional-or-repetition"
 
 
 def run(ctx):
     frag, problems = proof_leg(ctx, MODULES)
     allcs, stats, found_input = [], {}, False
+    tag_known = next((k for k in load_known() if k.get("id") == TAG_ID and k.get("status") == "known"), None)
     for fs in ("default", "extras"):
         ok, out, bindir, _ = cargo_build(fs, [GEN])
         if not ok:
@@ -22,6 +24,16 @@ def run(ctx):
                 ctx.violation({"correspondence": c.name, "error": c.error}, no_input=True)
                 continue
             stats[c.name] = c.stats
+            # tags on an optional / repeated expression: the two back-ends are structured differently (recorded finding)
+            if tag_known:
+                rest = []
+                for t in c.oracle_fail:
+                    if "(tag (opt" in t[1] or "(tag (rep" in t[1]:
+                        ctx.known_finding(TAG_ID, "with grammar-extras the generated parser and the VM tag different pairs for `#t = e?` / `#t = e*`: r = { #t = a* } on \"aaa\" tags the 2nd and 3rd `a` in the generated parser but only the 3rd in the VM; r = { a ~ #t = \"b\"? } on \"a\" tags `a` in the VM only")
+                    else:
+                        rest.append(t)
+                c.oracle_fail = rest
+                c.mismatch = [t for t in c.mismatch if not (("(tag (opt" in t[1] or "(tag (rep" in t[1]) and t[1].startswith("V "))]
             if c.oracle_fail:
                 i, op, imp, verdict = min(c.oracle_fail, key=lambda t: (len(t[1]), t[1]))
                 ctx.violation({"kind": "the generated parser (its emitted code executed call by call on the real ParserState) and Vm::parse disagree on a grammar and input",
@@ -56,7 +68,7 @@ def run(ctx):
     })
     ctx.evidence(level_of(ctx.prop), cov, [
         "rustc is not in the loop for the generated code (no network, compile time): the emitted token stream is parsed with syn and interpreted; a change of generated code outside the recognised sub-language is reported as a violation (no-failing-input-found) rather than ignored",
-        "Unicode property built-ins are covered by C16; tags on optional/repeated expressions (where the two back-ends are known to be structured differently) are outside the generator's domain",
+        "Unicode property built-ins are covered by C16; tags on optional/repeated rule references are generated (grammar-extras build) and their disagreement is the recorded finding",
     ])
 
 
